@@ -377,6 +377,11 @@ class Checker:
                 got = bytes(ret) if isinstance(ret, (bytes, bytearray)) else ret
                 if got != want:
                     V("value:read", "read() returned %r, the head of the RX FIFO was %r" % (_brief(got), _brief(want)))
+                elif n_rx and (s.last_status >> 1) & 7 != (after["rx"][0][0] if after["rx"] else 7):
+                    # "after ... any other transaction ... pipe describes the next payload's pipe": read() is the transaction that
+                    # changes what the next payload is, and it ends with a status-refreshing transaction of its own
+                    V("stale:read", "after read() the status byte names pipe %s as the next payload's, the RX FIFO's head is %s (%d left)"
+                      % ((s.last_status >> 1) & 7, after["rx"][0][0] if after["rx"] else "empty (7)", len(after["rx"])))
             elif k in ("fifo", "fifo0"):
                 about_tx, ce = (op[1], op[2]) if k == "fifo" else (False, None)
                 want = fifo_expect(n_tx if about_tx else n_rx, about_tx, ce)
